@@ -93,6 +93,11 @@ fn build(sym: &Sym, storage: bool, counter: u8) -> RefMsg {
 }
 /// a `short` symbol: the encoded message loses the last 5-k bytes of its 4-byte message id and LEN is adjusted
 fn shorten(mut enc: Vec<u8>, sym: &Sym, storage: bool) -> Vec<u8> {
+    // a storage-header ECU id field with bytes behind its first NUL: the id is still "S"
+    if storage && enc.len() >= 16 && &enc[12..16] == b"S\0\0\0" {
+        enc[14] = b'X';
+        enc[15] = 0xFF;
+    }
     if sym.short > 0 {
         let cut = 5 - sym.short as usize;
         let n = enc.len() - cut;
